@@ -176,33 +176,107 @@ def post(lines, verdicts):
         elif f[0] == "T":
             if "err:toolong" in obs:
                 cen["too_long"] += 1
+        elif f[0] == "E":
+            if obs.startswith("error"):
+                cen["e_not_run"] += 1
+            if obs.startswith("c "):
+                cen["e_cdc"] += 1
+            cen["e_mode_" + f[1]] += 1
+        elif f[0] == "Y":
+            if obs.startswith("some:") and len(f[3].split(",")) >= 2:
+                cen["y_composite_ok"] += 1
+            if obs.startswith("err:ser"):
+                cen["y_ser_err"] += 1
+        elif f[0] == "Z":
+            if f[1] == "c":
+                cen["z_cdc"] += 1
         elif f[0] == "P":
             if obs.startswith("c "):
                 cen["p_cdc"] += 1
             if obs.startswith("none "):
                 cen["p_unknown"] += 1
     post.census = dict(cen)
+    probs += _release_mode_tie(lines)
     post.refchecked = refchecked
     if len(lines) >= 50000:      # a generated run (not a replay): what the evidence claims must have happened
-        floors = {"H": 10000, "W": 10000, "K": 10000, "T": 2000, "P": 1000}
+        floors = {"H": 10000, "W": 10000, "K": 10000, "T": 2000, "P": 1000, "E": 800, "Y": 2000, "Z": 1500}
         for k, fl in floors.items():
             if kinds[k] < fl:
                 probs.append(("diff", k, f"diff coverage floor: only {kinds[k]} {k} cases (< {fl})"))
         cfl = {"k2_signed_tail": 3000, "multi_chunk": 5000, "cdc_hash": 1500, "permuted_key_ok": 3000,
                "k_malformed": 300, "too_long": 4, "k_cdc": 1000, "k_5plus_components": 1000,
-               "p_cdc": 100, "p_unknown": 100}
+               "p_cdc": 100, "p_unknown": 100, "e_cdc": 100, "e_mode_s": 500, "e_mode_x": 30, "e_mode_u": 30,
+               "y_composite_ok": 800, "y_ser_err": 20, "z_cdc": 100}
         for k, fl in cfl.items():
             if cen[k] < fl:
                 probs.append(("diff", k, f"diff coverage floor: only {cen[k]} cases of class {k} (< {fl})"))
+        if cen["e_not_run"] > 20:   # environment trouble (cluster/session could not start) is not-run, capped
+            probs.append(("diff", "E", f"diff {cen['e_not_run']} end-to-end cases could not be run"))
         if post.spec_k2 < 60:
             probs.append(("diff", "S", f"diff coverage floor: only {post.spec_k2} spec-tie inputs with a signed k2 tail"))
     return probs
+
+
+NOCHK_TARGET = os.path.join(ROOT, "build", "cargo-c03-nochk")
+
+
+def _release_mode_tie(lines):
+    """Second build of the SAME runner with overflow checks off (release arithmetic: u16 wraps):
+    the pk-index cases outside the quantifier (where the checked build panics) and a sample of
+    ordinary K cases are re-run as kind R and compared with the model's checks=false branch."""
+    post.r_cases = post.r_wrapped = 0
+    ks = [ln for ln in lines if ln.startswith("K ")]
+    if not ks:
+        return []
+    mal, ordinary = [], []
+    for ln in ks:
+        case, _, obs = ln.partition(" | ")
+        if len(case) > 4000:
+            continue
+        (mal if (obs.startswith("panic") or obs.startswith("err:")) else ordinary).append(case)
+    sel = mal[:6000] + ordinary[:1500]
+    panicked = {"R" + c[1:] for c in mal if True}
+    if not sel:
+        return []
+    env = dict(os.environ)
+    env.update({"CARGO_PROFILE_DEV_OVERFLOW_CHECKS": "false", "CARGO_TARGET_DIR": NOCHK_TARGET, "CARGO_NET_OFFLINE": "true"})
+    b = subprocess.run("cargo build --offline --bin c03", shell=True, cwd=os.path.join(ROOT, "harness"), env=env,
+                       stdout=subprocess.PIPE, stderr=subprocess.STDOUT, text=True, timeout=2400)
+    if b.returncode != 0:
+        return [("diff", "R", "error build without overflow checks failed: " + b.stdout[-300:].replace("\n", " "))]
+    work = os.path.join(ROOT, "work")
+    rin, rout = os.path.join(work, "C03.nochk.in"), os.path.join(work, "C03.nochk.cases")
+    open(rin, "w").write("\n".join("R" + c[1:] for c in sel) + "\n")
+    r = subprocess.run([os.path.join(NOCHK_TARGET, "debug", "c03"), "--replay", rin, "--out", rout],
+                       stdout=subprocess.PIPE, stderr=subprocess.STDOUT, text=True, timeout=1200)
+    if r.returncode != 0:
+        return [("diff", "R", "error runner without overflow checks failed: " + r.stdout[-300:].replace("\n", " "))]
+    rl = open(rout, errors="replace").read().splitlines()
+    d = subprocess.run([os.path.join(ROOT, "ocaml", "c03", "driver")], input="\n".join(rl) + "\n",
+                       stdout=subprocess.PIPE, stderr=subprocess.PIPE, text=True, timeout=1200)
+    rv = d.stdout.splitlines()
+    out = []
+    if len(rv) != len(rl) or len(rl) != len(sel):
+        out.append(("diff", "R", f"error release-mode tie: {len(sel)} cases, {len(rl)} outputs, {len(rv)} verdicts"))
+    debug_out = {("R" + ln.partition(" | ")[0][1:]): ln.partition(" | ")[2] for ln in ks}
+    for l, v in zip(rl, rv):
+        post.r_cases += 1
+        case, _, obs = l.partition(" | ")
+        if debug_out.get(case, "").startswith("panic") and obs.startswith("err:nopk"):
+            post.r_wrapped += 1
+        if v != "ok":
+            out.append(("viol" if v.startswith("viol") else "diff", l[:400], v if v.startswith(("viol", "diff")) else "diff " + v))
+    if len(lines) >= 50000 and post.r_wrapped < 100:
+        out.append(("diff", "R", f"diff coverage floor: only {post.r_wrapped} cases where the checked build panics and the unchecked one wraps"))
+    return out
 
 
 def extra_coverage(lines, verdicts):
     return {"spec_tie_cases_vs_independent_reference": getattr(post, "spec_cases", 0),
             "spec_tie_cases_with_signed_k2_tail": getattr(post, "spec_k2", 0),
             "impl_murmur3_outputs_checked_against_reference": getattr(post, "refchecked", 0),
+            "release_mode_cases_R": getattr(post, "r_cases", 0),
+            "release_mode_cases_where_debug_panics_and_release_wraps": getattr(post, "r_wrapped", 0),
             "census": getattr(post, "census", {})}
 
 
@@ -222,7 +296,10 @@ SPEC = {
              "random cases: H, W (random chunkings, chunk sizes around 0/1/8/16/32), K (1..8 key components among "
              "<=16 markers, permuted, non-key markers value/null/unset interleaved; 15% malformed: null key "
              "component, duplicate / out-of-range pk index, missing values, missing column specs, not token aware), "
-             "T = calculate_token_for_partition_key, P = PartitionerName::from_str + default on exact, suffixed, "
+             "T = calculate_token_for_partition_key, E = real Session + Session::prepare on a mock cluster whose scylla_tables "
+             "rows are the case's (modes: present / no such table / table unknown), Y = typed CqlValue rows over 8 native "
+             "key types, Z = hash_one then Sharder::shard_of, R (post) = malformed K cases re-run without overflow checks, "
+             "P = PartitionerName::from_str + default on exact, suffixed, "
              "truncated, concatenated and unknown names; 1/6 of the cases use the CDC partitioner; post: per-kind "
              "and per-class floors (signed k2 tails, permuted keys, malformed, too long, CDC, unknown names), the "
              "Coq SPEC hash3_x64_128 vs an independent unsigned reference on ~300 inputs (kind S), the same "
@@ -248,8 +325,10 @@ SPEC = {
         "inside the quantifier (key_ok, decided exactly by key_okb): pk indexes distinct, each names an existing "
         "marker bound to a value, at most 65535 bound values; outside it the model still follows the code (panics and "
         "errors are compared exactly)",
-        "debug semantics: the harness is built with overflow-checks, so u16 overflow in PartitionKey::new is a panic "
-        "in model and tie; a release build wraps and returns NoPkIndexValue (outside the quantifier, not tied)",
+        "build modes: the main harness is built with overflow-checks (u16 overflow in PartitionKey::new panics; kind K, "
+        "model flag checks=true); post re-runs the malformed K cases with the same runner built with overflow checks "
+        "off (wrapping, kind R, checks=false); that second build is the dev profile, not an optimised --release build",
+        "end-to-end E cases need loopback listeners (mocknode); a scenario that cannot start is counted not-run (cap 20)",
     ],
 }
 
